@@ -3,7 +3,7 @@
 
    All theorems quantify over every option list: any option types, any data lengths (bytes are N, so
    0..253 is included), duplicates, any order; and over every configuration and previous peer state.
-   Variant [repaired] is what /repo HEAD (23daa44) implements for pkg/ppp, internal/pppoe and internal/l2tp,
+   Variant [repaired] is what /repo HEAD (d2827a3) implements for pkg/ppp, internal/pppoe and internal/l2tp,
    no finding is open.  [defective], [lns_found], [def_restore], [def_rguard] are the behaviours before the fixes
    54fb851 / 95b0af2 / bc32486 / ce9ad2f / 8205ad2 / 7efc399 and only occur in historical _refuted witnesses.
    Since e9950ea a PPPoE session whose LCP leaves Opened after startNCP is torn down (owner [Ended]): on PPPoE a
@@ -267,8 +267,8 @@ Print Assumptions C06_ipv6cp_wire_bad.
    after a reservation conflict on re-authentication, and then IPCP is not open: C06_open_session_has_assigned_address); and the remembered negotiated
    peer address is nil or the assigned one, never a stale one. *)
 Theorem C06_adopted_is_assigned :
-  forall ow aaa d orc es,
-  let s := sess_run repaired (sess_start_dns repaired ow aaa d orc) es in
+  forall ow aaa d orc f es,
+  let s := sess_run repaired (sess_start_dns repaired ow aaa d orc f) es in
   (s_fsm s = 0%N /\ s_addr s = None /\ s_open s = false) \/
   (usable (ic_assigned (s_cfg s)) = true /\
    (s_addr s = None \/ to4o (s_addr s) = ic_assigned (s_cfg s)) /\
@@ -279,9 +279,9 @@ Print Assumptions C06_adopted_is_assigned.
 (* If no re-authentication runs into a reservation conflict (ReserveIP answers "held by another session"),
    the session address of a started session IS the assigned address after every event. *)
 Theorem C06_adopted_is_assigned_no_conflict :
-  forall ow aaa d orc es,
+  forall ow aaa d orc f es,
   forallb no_conflict es = true ->
-  let s := sess_run repaired (sess_start_dns repaired ow aaa d orc) es in
+  let s := sess_run repaired (sess_start_dns repaired ow aaa d orc f) es in
   (s_fsm s = 0%N /\ s_addr s = None /\ s_open s = false) \/
   (usable (ic_assigned (s_cfg s)) = true /\ to4o (s_addr s) = ic_assigned (s_cfg s)).
 Proof. exact adopted_is_assigned_no_conflict. Qed.
@@ -305,8 +305,8 @@ Print Assumptions C06_lcp_renegotiation_ends_session.
    IP-Address option in it carries the assignment in force, which is usable. *)
 Theorem C06_session_acks_only_assigned :
   forall s0 es e id os,
-  (exists ow aaa d orc, s0 = sess_start_dns repaired ow aaa d orc) \/
-  (exists addr d1 d2, s0 = sess_restore repaired addr d1 d2) ->
+  (exists ow aaa d orc f, s0 = sess_start_dns repaired ow aaa d orc f) \/
+  (exists addr d1 d2 f, s0 = sess_restore_f repaired addr d1 d2 f) ->
   let s := sess_run repaired s0 es in
   In (Sca id os) (snd (sess_step repaired s e)) ->
   exists v, ic_assigned (s_cfg s) = Some v /\ usable (ic_assigned (s_cfg s)) = true /\
@@ -315,7 +315,7 @@ Theorem C06_session_acks_only_assigned :
                                   (o_type o = 3%N \/ o_type o = 129%N \/ o_type o = 131%N)).
 Proof.
   intros s0 es e id os H0. apply session_acks_only_assigned.
-  destruct H0 as [(ow & aaa & d & orc & ->)|(addr & d1 & d2 & ->)]; [apply sess_start_ok|apply sess_restore_ok].
+  destruct H0 as [(ow & aaa & d & orc & f & ->)|(addr & d1 & d2 & f & ->)]; [apply sess_start_ok|apply sess_restore_ok].
 Qed.
 Print Assumptions C06_session_acks_only_assigned.
 
@@ -323,16 +323,16 @@ Print Assumptions C06_session_acks_only_assigned.
    usable and the session address IS the assignment. *)
 Theorem C06_open_session_has_assigned_address :
   forall s0 es,
-  (exists ow aaa d orc, s0 = sess_start_dns repaired ow aaa d orc) \/
-  (exists addr d1 d2, s0 = sess_restore repaired addr d1 d2) ->
+  (exists ow aaa d orc f, s0 = sess_start_dns repaired ow aaa d orc f) \/
+  (exists addr d1 d2 f, s0 = sess_restore_f repaired addr d1 d2 f) ->
   let s := sess_run repaired s0 es in
   s_open s = true ->
   usable (ic_assigned (s_cfg s)) = true /\ to4o (s_addr s) = ic_assigned (s_cfg s) /\ s_fsm s = 9%N.
 Proof.
   intros s0 es H0 s. apply open_has_assigned.
-  - apply sess_run_ok. destruct H0 as [(ow & aaa & d & orc & ->)|(addr & d1 & d2 & ->)];
+  - apply sess_run_ok. destruct H0 as [(ow & aaa & d & orc & f & ->)|(addr & d1 & d2 & f & ->)];
       [apply sess_start_ok|apply sess_restore_ok].
-  - destruct H0 as [(ow & aaa & d & orc & ->)|(addr & d1 & d2 & ->)]; apply sess_run_fsm_ok;
+  - destruct H0 as [(ow & aaa & d & orc & f & ->)|(addr & d1 & d2 & f & ->)]; apply sess_run_fsm_ok;
       first [apply sess_start_ok|apply sess_restore_ok|apply sess_start_fsm_ok|apply sess_restore_fsm_ok].
 Qed.
 Print Assumptions C06_open_session_has_assigned_address.
@@ -362,8 +362,8 @@ Print Assumptions C06_assigned_immutable.
    nothing assigned (and by C06_idle_silent nothing is ever sent or adopted).  The "nothing to assign:
    acknowledge any non-zero proposal" branch of ProcessConfReq can therefore never produce a packet. *)
 Theorem C06_startncp_assigned :
-  forall ow aaa d orc,
-  let s := sess_start_dns repaired ow aaa d orc in
+  forall ow aaa d orc f,
+  let s := sess_start_dns repaired ow aaa d orc f in
   let a := addr_after_registry ow (extract_ip repaired aaa) orc in
   (usable a = true ->
      s_fsm s = 6%N /\ usable (ic_assigned (s_cfg s)) = true /\ ic_assigned (s_cfg s) = to4o a /\ s_addr s = a) /\
@@ -433,8 +433,8 @@ Print Assumptions C06_lns_unassigned_refuted.
    re-authentication, ...) the conclusion of C06_adopted_is_assigned holds: an unusable address does not
    restore IPCP at all; a usable one is the assignment and IPCP is Opened. *)
 Theorem C06_restored_adopts_only_assigned :
-  forall addr d1 d2 es,
-  let s := sess_run repaired (sess_restore repaired addr d1 d2) es in
+  forall addr d1 d2 f es,
+  let s := sess_run repaired (sess_restore_f repaired addr d1 d2 f) es in
   (s_fsm s = 0%N /\ s_addr s = None /\ s_open s = false) \/
   (usable (ic_assigned (s_cfg s)) = true /\
    (s_addr s = None \/ to4o (s_addr s) = ic_assigned (s_cfg s)) /\
@@ -443,9 +443,9 @@ Proof. exact restored_adopts_only_assigned. Qed.
 Print Assumptions C06_restored_adopts_only_assigned.
 
 Theorem C06_restored_assigned :
-  forall addr d1 d2, usable (Some addr) = true ->
-  ic_assigned (s_cfg (sess_restore repaired addr d1 d2)) = to4 addr /\
-  s_fsm (sess_restore repaired addr d1 d2) = 9%N.
+  forall addr d1 d2 f, usable (Some addr) = true ->
+  ic_assigned (s_cfg (sess_restore_f repaired addr d1 d2 f)) = to4 addr /\
+  s_fsm (sess_restore_f repaired addr d1 d2 f) = 9%N.
 Proof. exact restored_assigned. Qed.
 Print Assumptions C06_restored_assigned.
 
@@ -664,6 +664,56 @@ Example C06_ipv6cp_session_nonvacuous :
   snd (v6sess_step s1 (V6Req 6 [1;10;2;0;0;0;0;0;0;1]%N [])) = [Sca 6 [mkopt 1 [2;0;0;0;0;0;0;1]%N]].
 Proof. vm_compute. repeat split. Qed.
 Print Assumptions C06_ipv6cp_session_nonvacuous.
+
+(* ---- choices the property leaves to the implementation ------------------------------------- *)
+
+(* With nothing usable assigned the property does not oblige IPCP to acknowledge anything: the model carries
+   the implementation's choice [ic_refuse] (which non-zero proposals it turns down in that mode; /repo HEAD:
+   none).  Every IPCP theorem above is stated for an arbitrary configuration c and hence for every such choice;
+   the session theorems quantify over it explicitly (argument f).  With a usable assignment the choice is
+   never consulted: *)
+Theorem C06_ipcp_refuse_irrelevant :
+  forall c f p os, usable (ic_assigned c) = true -> ipcp_req (with_refuse c f) p os = ipcp_req c p os.
+Proof. exact ipcp_refuse_irrelevant. Qed.
+Print Assumptions C06_ipcp_refuse_irrelevant.
+
+(* The property says when LCP must not ACKNOWLEDGE; which values a Configure-Nak suggests (the magic number
+   for a looped-back one, the MRU for a too small one, the authentication protocol) is left open.  For EVERY
+   result that differs from the model's only in the data of the Nak'd options (same option types, same
+   positions: [res_sim]) the packet sent is of the same kind, and the magic / authentication clauses hold. *)
+Theorem C06_nak_values_free :
+  forall id r r', res_sim r r' ->
+  is_good r' = is_good r /\
+  ((exists os, reply id r = Sca id os /\ reply id r' = Sca id os) \/
+   (exists os, reply id r = Scj id os /\ reply id r' = Scj id os) \/
+   (exists nk nk', reply id r = Scn id nk /\ reply id r' = Scn id nk' /\ nak_sim nk nk')).
+Proof. exact res_sim_reply. Qed.
+Print Assumptions C06_nak_values_free.
+
+Theorem C06_lcp_nak_choice_free :
+  forall fl magic p opts r',
+  res_sim (fst (lcp_req fl magic p opts)) r' -> magic <> 0%N ->
+  (forall o, In o (r_ack r') -> o_type o = 5%N -> length (o_data o) = 4%nat /\ num32 (o_data o) <> magic) /\
+  (forall o, In o opts -> o_type o = 5%N -> length (o_data o) = 4%nat -> num32 (o_data o) = magic ->
+     (exists n, In n (r_nak r') /\ o_type n = 5%N) /\ ~ In o (r_ack r') /\ is_good r' = false).
+Proof. exact lcp_nak_choice_free. Qed.
+Print Assumptions C06_lcp_nak_choice_free.
+
+Theorem C06_lcp_nak_choice_free_auth :
+  forall magic p opts r',
+  res_sim (fst (lcp_req repaired magic p opts)) r' ->
+  forall o, In o (r_ack r') -> o_type o = 3%N ->
+     num16 (o_data o) = proto_pap \/
+     (num16 (o_data o) = proto_chap /\ exists a b, o_data o = [a; b; chap_md5]).
+Proof. exact lcp_nak_choice_free_auth. Qed.
+Print Assumptions C06_lcp_nak_choice_free_auth.
+
+(* /repo HEAD's policies are admissible instances: it refuses nothing, and its Nak values are the model's *)
+Example C06_head_choices_admissible :
+  (forall a, ic_refuse (mk_ipcp_cfg None None) a = false) /\
+  (forall fl magic p opts, res_sim (fst (lcp_req fl magic p opts)) (fst (lcp_req fl magic p opts))).
+Proof. split; [reflexivity|intros; apply res_sim_refl]. Qed.
+Print Assumptions C06_head_choices_admissible.
 
 (* ---- wire format ---------------------------------------------------------------------------- *)
 
